@@ -161,6 +161,36 @@ let rec eval (inp : string list) (impl : string list) : Drv.verdict =
                 spec_ok = (match v.Drv.spec_ok with Some b -> Some (b && sound) | None -> Some sound);
                 note = (if sound then v.Drv.note else "uniqKeys.Check accepted comparable prefixes") }
      | _ -> { Drv.default_verdict with model_obs = ["U"; u_model]; spec_ok = Some false })
+  | "MIG" :: calls ->
+    (* per call: the raw content after a probe write through every bound field (expected from THAT
+       call's own tags via the extracted migrate_tables + the table model), then OpenTables' names *)
+    let hex_of_string str = String.concat "" (List.map (fun c -> Printf.sprintf "%02x" (Char.code c)) (List.init (String.length str) (String.get str))) in
+    let rest = ref impl and model = ref [] and ok = ref true and note = ref "" in
+    List.iteri (fun ci c ->
+      let tags = (match String.index_opt c ':' with
+        | Some i -> let t = String.sub c (i + 1) (String.length c - i - 1) in
+                    if t = "" then [] else List.map bytes_of_tok (String.split_on_char ',' t)
+        | None -> []) in
+      let bound = migrate_tables tags in
+      let puts = List.map (fun (n, p) -> ["put"; "0/" ^ tok_of_bytes p; "6b"; Printf.sprintf "%02x" (int_of_nat n)]) bound in
+      let hist = ["mem"] @ List.concat_map (fun o -> ";" :: o) (puts @ [["it"; "0"; "~"; "~"]]) in
+      (* implementation tokens of this call: I n (k v)* then O ... *)
+      let (chunk, r1) = next_chunk !rest in
+      let v = eval_history hist chunk in
+      model := !model @ v.Drv.model_obs;
+      if v.Drv.spec_ok = Some false || v.Drv.model_obs <> chunk then begin
+        if !ok then note := Printf.sprintf "call %d: fields are not bound to the prefixes of their own tags" (ci + 1);
+        ok := false end;
+      let names = List.sort_uniq compare (List.map (fun (_, p) -> hex_of_string "b/" ^ (if p = [] then "" else tok_of_bytes p)) bound) in
+      let expect_o = "O" :: string_of_int (List.length names) :: names in
+      let (got_o, r2) = take (List.length expect_o) r1 in
+      model := !model @ expect_o;
+      if got_o <> expect_o then begin
+        if !ok then note := Printf.sprintf "call %d: OpenTables opened other databases than its own tags name" (ci + 1);
+        ok := false end;
+      rest := r2) calls;
+    if !rest <> [] then ok := false;
+    { Drv.default_verdict with model_obs = !model; spec_ok = Some !ok; note = !note }
   | _ -> eval_history inp impl
 
 and eval_history (inp : string list) (impl : string list) : Drv.verdict =
